@@ -4,6 +4,8 @@ import (
 	"fmt"
 	"go/token"
 	"go/types"
+	"sort"
+	"strings"
 
 	"golang.org/x/tools/go/ssa"
 )
@@ -138,6 +140,68 @@ func checkC06(p *Program, r *Report) {
 	}
 	canonicalInput(p, r, "C06.canon", []*ssa.Function{fn})
 	base58ByteLookup(p, r, "C06.canon")
+	// the key DecodeWIF returns is the key the string spells: nothing writes the object the key parser returned
+	{
+		ef := NewEffects(p)
+		n := 0
+		for _, b := range fn.Blocks {
+			for _, in := range b.Instrs {
+				kc, ok := in.(*ssa.Call)
+				if !ok || !strings.HasSuffix(calleeName(&kc.Call), ".PrivKeyFromBytes") {
+					continue
+				}
+				n++
+				var bad []string
+				for _, b2 := range fn.Blocks {
+					for _, in2 := range b2.Instrs {
+						ci, ok := in2.(ssa.CallInstruction)
+						if !ok {
+							continue
+						}
+						cal := ci.Common().StaticCallee()
+						if cal == nil {
+							continue
+						}
+						idxs, isW := externalWriters[cal.String()]
+						if !isW {
+							continue
+						}
+						for _, i := range idxs {
+							if i >= len(ci.Common().Args) {
+								continue
+							}
+							for root := range ef.Src(ci.Common().Args[i]) {
+								if root.Kind == rkFresh && (root.Site == ssa.Value(kc)) {
+									bad = append(bad, cal.Name()+" at "+p.Pos(ci.Pos()))
+								}
+							}
+						}
+					}
+				}
+				for _, b2 := range fn.Blocks {
+					for _, in2 := range b2.Instrs {
+						if st, ok := in2.(*ssa.Store); ok {
+							for root := range ef.Src(st.Addr) {
+								if root.Kind == rkFresh && root.Site == ssa.Value(kc) {
+									bad = append(bad, "store at "+p.Pos(st.Pos()))
+								}
+							}
+						}
+					}
+				}
+				sort.Strings(bad)
+				bad = dedup(bad)
+				how := "no setter call or store targets the object PrivKeyFromBytes returned"
+				if len(bad) > 0 {
+					how = "the parsed key is modified before it is returned (" + strings.Join(bad, "; ") + "): a string whose key bytes are not already in that form is accepted but re-encodes differently"
+				}
+				r.Add("C06.canon", FnName(fn), "the key returned is the key parsed from the string's 32 key bytes, unmodified", kc.Pos(), len(bad) == 0, how)
+			}
+		}
+		if n == 0 {
+			r.Unresolved("C06.canon", "call of bchec.PrivKeyFromBytes in DecodeWIF")
+		}
+	}
 	memoCoherence(p, r, "C06.memo", "", "WIF", nil)
 	if n := rejectionVocabulary(p, r, "C06.accepts", fn, []string{`len\(call .*base58\.Decode\)`, `call .*base58\.Decode\[33\]`, `call bytes\.Equal`},
 		"the decoded length, the compression marker and the checksum", approvedChecksumConds(p, fn)); n == 0 {
